@@ -60,6 +60,85 @@ def c01(tier):
                      "TLC, CommunityModules Json, tools/aut2tla.py CBOR reader"])
 
 
+def mc_replay(c, model, cfg, label, workers=8, coverage=False, timeout=7200):
+    """Run one emitting TLC model and push its cases through the real code."""
+    r = run_tlc(model, cfg=cfg, name=os.path.basename(cfg), workers=workers, coverage=coverage, timeout=timeout)
+    c.add_tlc(r, label)
+    c.add_samples(r.cases_path, 2)
+    if not r.error and r.cases:
+        rr = run_replay(r.cases_path, name=os.path.basename(cfg))
+        c.add_replay(rr, label)
+    return r
+
+
+def cfgs(model, tier, variants):
+    """[(model, cfg)] for the tier: <model>.<variant>.<tier>.cfg ('' = main variant)."""
+    out = []
+    for v in variants:
+        name = "%s.%s%s" % (model, (v + ".") if v else "", tier)
+        out.append((model, name))
+    return out
+
+
+TRUST = ["TLC, CommunityModules Json", "rustc / cargo building /repo's working tree",
+         "RFC 3986 section 3, 3.2, 5.3 transcription in spec/Parts.tla"]
+
+
+def c02(tier):
+    c = new_check("C02", tier)
+    for model, cfg in cfgs("mc/MC_Parts", tier, ["", "iri"]):
+        mc_replay(c, model, cfg, "every valid reference within the bound, with its RFC decomposition")
+    return c.finish(rule="all valid (I)RI-references of bounded length over a delimiter-rich alphabet, enumerated by "
+                         "walking the derivative automaton; each distinct text is one case",
+                    assumptions=TRUST)
+
+
+def c03(tier):
+    c = new_check("C03", tier)
+    for model, cfg in cfgs("mc/MC_Auth", tier, ["", "iri"]):
+        mc_replay(c, model, cfg, "every valid authority within the bound, with its section 3.2 decomposition")
+    for model, cfg in cfgs("mc/MC_Parts", tier, [""]):
+        mc_replay(c, model, cfg, "authorities embedded in references")
+    return c.finish(rule="all valid authorities of bounded length (IP-literals included), stand-alone and embedded",
+                    assumptions=TRUST)
+
+
+def c20(tier):
+    c = new_check("C20", tier)
+    for model, cfg in cfgs("mc/MC_Parts", tier, ["", "iri"]):
+        mc_replay(c, model, cfg, "byte ranges of components vs. pointer offsets of returned slices; allocation deltas")
+    for model, cfg in cfgs("mc/MC_Auth", tier, [""]):
+        mc_replay(c, model, cfg, "authority sub-component ranges")
+    return c.finish(rule="every enumerated valid text: allocation delta of parse+accessors must be 0 and every "
+                         "returned slice must sit at the byte range computed by spec/Ranges.tla",
+                    assumptions=TRUST + ["counting #[global_allocator] in the harness (thread-local counter)"])
+
+
+def c09(tier):
+    c = new_check("C09", tier)
+    for model, cfg in cfgs("mc/MC_Paths", tier, [""]):
+        mc_replay(c, model, cfg, "every path within the bound: normalized segments, admissible texts of the normalized "
+                                 "copy and of in-place normalisation, stand-alone and inside references")
+    return c.finish(rule="all paths (absolute and relative) of bounded segment count over {'', a, ., .., b:c, %2e, e-acute}",
+                    assumptions=TRUST + ["RFC 3986 5.2.4 transcription (Rfc524) and the Errata-4547 stack walk (NormSegs) in "
+                                         "spec/PathOps.tla; TLC proves they agree on every enumerated absolute path"])
+
+
+def c12(tier):
+    c = new_check("C12", tier)
+    for model, cfg in cfgs("mc/MC_SegIter", tier, [""]):
+        mc_replay(c, model, cfg, "every interleaving of next/next_back (two calls past exhaustion) on every path in the bound")
+    for model, cfg in cfgs("mc/MC_Paths", tier, [""]):
+        mc_replay(c, model, cfg, "path queries against the '/'-split of the text")
+    return c.finish(rule="paths of bounded segment count with empty, multi-byte and '..' segments; all 2^(n+2) call strings",
+                    assumptions=TRUST)
+
+
 PIPELINES = {
+    "C09": c09,
+    "C12": c12,
     "C01": c01,
+    "C02": c02,
+    "C03": c03,
+    "C20": c20,
 }
